@@ -102,10 +102,16 @@ __CPROVER_ensures(*indent >= __CPROVER_old(*indent) - 4 * (int)orig_len && *inde
 /* ---- L3: framing (C03 framing lemma, C09 i-iii, C11) --------------------------------------- */
 #define L3_GHOST_FRAME G, GL, GF
 
+/* VERIF_MAP_GLUE (only the decode_file job sets it to 1): there the decoders are applied to the map the
+   real build_mapping() produced (&dec->xmap) instead of the spec map they were verified against; the L1
+   table lemma (contracts/basic_tokens.h) is what justifies the substitution -- see DESIGN.md C03. */
+#ifndef VERIF_MAP_GLUE
+#define VERIF_MAP_GLUE 0
+#endif
 #define L3_REQUIRES \
   __CPROVER_requires(fmon_on && mon_on && g_pos == 0 && g_len <= VERIF_FILE_MAX) \
   __CPROVER_requires(fmon_phase == FPH_START && fmon_lines == g_lines_listed && g_lines_listed < (1ul << 38)) \
-  __CPROVER_requires(m == &SPEC_MAP && mon_map == m && mon_listo == listo && mon_indent_run == 0) \
+  __CPROVER_requires((m == &SPEC_MAP || VERIF_MAP_GLUE) && mon_map == m && mon_listo == listo && mon_indent_run == 0) \
   __CPROVER_requires(G_DIAG_ROOM_L3 && !g_read_error_happened)
 
 #define L3_ENSURES \
